@@ -13,6 +13,7 @@ type fsGen struct {
 	impl   *fsImpl
 	opts   fsGenOpts
 	nviews int
+	vid    int   // the view the next line is for: operands are chosen in ITS tree
 	open   []int // handle ids handed out so far
 	tick   int64
 	queue  []string // pending lines of a multi-line template
@@ -33,7 +34,7 @@ type fsGenOpts struct {
 var fsNames = []string{"a", "b", "c", "ab"} // "ab" extends "a": prefix-related sibling names
 
 func (g *fsGen) pickExisting(kind string) (string, bool) {
-	dirs, files, links := g.impl.existingPaths()
+	dirs, files, links := g.impl.existingPathsIn(g.vid)
 	var pool []string
 	switch kind {
 	case "dir":
@@ -160,7 +161,7 @@ func (g *fsGen) related(p string) string {
 	r := g.r
 	if r.Bool(15) {
 		// a new name inside an EXISTING descendant directory of p (any depth)
-		dirs, _, _ := g.impl.existingPaths()
+		dirs, _, _ := g.impl.existingPathsIn(g.vid)
 		var below []string
 		for _, d := range dirs {
 			if strings.HasPrefix(d, strings.TrimSuffix(p, "/")+"/") {
@@ -189,6 +190,34 @@ func (g *fsGen) related(p string) string {
 		}
 	}
 	return g.path()
+}
+
+// subDir returns the operand of a Sub call made in working directory cwd: mostly an existing directory, absolute or
+// relative to cwd, or a name of cwd itself ("", ".", ...).
+func (g *fsGen) subDir(cwd string) string {
+	r := g.r
+	dirs, _, _ := g.impl.existingPathsIn(g.vid)
+	switch r.Intn(10) {
+	case 0, 1:
+		return lib.Pick(r, []string{"", ".", "./", "a/..", "./."})
+	case 2, 3, 4:
+		var below []string
+		for _, d := range dirs {
+			if cwd == "/" || strings.HasPrefix(d, cwd+"/") {
+				below = append(below, strings.TrimPrefix(strings.TrimPrefix(d, cwd), "/"))
+			}
+		}
+		if len(below) > 0 {
+			return lib.Pick(r, below)
+		}
+		return lib.Pick(r, []string{"", ".", lib.Pick(r, fsNames)})
+	case 5:
+		return g.path()
+	}
+	if len(dirs) > 0 {
+		return lib.Pick(r, dirs)
+	}
+	return "/tmp"
 }
 
 func (g *fsGen) linkTarget() string {
@@ -269,9 +298,10 @@ func (g *fsGen) next() string {
 		return l
 	}
 	vid := 0
-	if g.opts.views && g.nviews > 1 && r.Bool(50) {
-		vid = r.Intn(g.nviews)
+	if g.opts.views && g.nviews > 1 && r.Bool(60) {
+		vid = 1 + r.Intn(g.nviews-1)
 	}
+	g.vid = vid
 	pre := fmt.Sprintf("fs %d ", vid)
 	if g.opts.files && len(g.open) > 0 && r.Bool(45) {
 		return pre + "file " + fmt.Sprint(lib.Pick(r, g.open)) + " " + g.fileOp()
@@ -287,8 +317,16 @@ func (g *fsGen) next() string {
 	if g.opts.users && r.Bool(3) {
 		return pre + fmt.Sprintf("setumask %d", lib.Pick(r, []int{0, 0o022, 0o077, 0o027, 0o777, 0o002}))
 	}
-	if g.opts.views && r.Bool(4) {
-		return pre + "sub " + h(g.path())
+	if g.opts.views && r.Bool(3) {
+		// a view of the working directory, or of a directory named relatively to it, after a Chdir through the same view
+		if d, ok := g.pickExisting("dir"); ok {
+			g.queue = append(g.queue, pre+"sub "+h(g.subDir(d)))
+			return pre + "chdir " + h(d)
+		}
+	}
+	if g.opts.views && r.Bool(6) {
+		cwd, _ := g.impl.views[vid].Getwd()
+		return pre + "sub " + h(g.subDir(cwd))
 	}
 	if g.opts.enum && r.Bool(45) {
 		switch r.Intn(6) {
